@@ -207,6 +207,7 @@ def _build(vector, case, names, mom):
 
 _CLS = re.compile(r"Momentum(Object|Numpy|Array|Record|Sympy)?([234]D)")
 _FLD = re.compile(r"\b(px|py|pt|pz|E|e|energy|M|m|mass): ")
+_QFLD = re.compile(r"'(px|py|pt|pz|E|e|energy|M|m|mass)'")
 
 
 def _norm(c):
@@ -214,6 +215,7 @@ def _norm(c):
     if isinstance(c, str):
         c = _CLS.sub(lambda m: "Vector" + (m.group(1) or "") + m.group(2), c)
         c = _FLD.sub(lambda m: C.GENERIC_OF[m.group(1)] + ": ", c)
+        c = _QFLD.sub(lambda m: "'" + C.GENERIC_OF[m.group(1)] + "'", c)
         return c
     if isinstance(c, list):
         return [_norm(x) for x in c]
